@@ -72,13 +72,17 @@ fn split_cells(r: &mut Rng, target: u64, ncells: usize) -> Option<Vec<u64>> {
     None
 }
 
+pub fn gen_c04_plan(r: &mut Rng, tier: Tier, job: u64) -> Plan {
+    gen_c04(r, tier, job)
+}
+
 fn gen_c04(r: &mut Rng, tier: Tier, job: u64) -> Plan {
     let k = match r.weighted(&[60, 30, 10]) {
         0 => 1u64,
         1 => 2,
         _ => 3,
     };
-    let d: i64 = r.irange(-6, 6);
+    let d: i64 = if r.chance(1, 4) { 0 } else { r.irange(-6, 6) };
     let target = (k * U24) as i64 + d; // logical message length
     let variant = if tier == Tier::Thorough { r.below(10) } else { job % 10 };
     let mut cmds = Vec::new();
@@ -198,6 +202,7 @@ fn gen_c04(r: &mut Rng, tier: Tier, job: u64) -> Plan {
                         bind: None,
                         values: vec![],
                         raw: None,
+                    stale_types: None,
                     },
                 },
                 act: Act::Program(Program {
@@ -495,6 +500,7 @@ fn c15_plan(cells: Vec<(Cell, u8, bool)>, r: &mut Rng) -> Plan {
                     bind: None,
                     values: vec![],
                     raw: None,
+                    stale_types: None,
                 },
             },
             act: Act::Program(Program {
@@ -1222,6 +1228,7 @@ fn gen_c20(r: &mut Rng, job: u64) -> Plan {
                         bind: None,
                         values: vec![],
                         raw: Some(hostile_block(r, np)),
+                        stale_types: None,
                     },
                 },
                 act: Act::Program(simple_ok_program()),
